@@ -25,6 +25,11 @@ RULE = ("every supported modulator (BPSK, QPSK, PSK 2..2^10 [2^12 thorough], "
         "constellation point or of class boundary/corner, or a round-trip "
         "case with M > 64, a non-zero phase offset or an input that is not "
         "1-D; distinct = SHA-1 of the case description")
+RULE += (" Added after the white-box review: "
+         "a 'history' part: 2..6 uses (round trip and detection of "
+         "1..40 samples) and phase-offset changes on ONE PSK/QPSK "
+         "object; one batch above 2^24 matrix elements ")
+
 LEVEL_TEXT = ("Generated-input search (Hypothesis, seeded, sharded) plus "
               "complete enumeration of the supported modulator orders: exact "
               "round trip, constellation (distinct points, unit energy, "
